@@ -13,7 +13,7 @@ RULE = ('Hypothesis-generated serial lines: 0-6 stations (quick) / 0-10 (thoroug
         '(D(j,k) = max(ready(j,k), free(j+1,k)), free = D(j+1,k-K), sink frees c after receipt, source restarts when '
         'the part leaves) compared EXACTLY with the received_part time list of every station and the sink, and the '
         'sink count; plus the two documented serial examples (SingleProcessor 99, BufferExample 10079) as fixed '
-        'cases. Non-trivial = at least one station was blocked by its successor at least once (D > ready) and at '
+        'cases. A second phase gives the source a small budget and raises it from events during the run (adjust_part_count): part k then becomes available at max(previous departure + c0, time the budget first covers it). Non-trivial = at least one station was blocked by its successor at least once (D > ready) and at '
         'least 3 parts were delivered; distinct = SHA-1 of the canonical case JSON.')
 ASSUMPTIONS = ['constant cycle times / delays / capacities; no failures, no resources, no gates (the statement\'s domain)',
                'entry times are read from simulation_data["received_part"]']
@@ -41,12 +41,35 @@ def cases(max_len, horizons):
                      st.sampled_from(['random', 'fifo', 'lifo', 'const']), st.integers(0, 10 ** 6))
 
 
+def refill_cases(max_len, horizons):
+    """Finite budgets that are raised while the line runs (adjust_part_count from an event): the part the source built
+    in advance leaves when the budget covers it, and the source cycle keeps starting when the previous part left."""
+    def build(case, budget, refills, prio):
+        case = dict(case)
+        case['src'] = [case['src'][0], budget]
+        case['refills'] = [list(r) for r in refills]
+        case['refill_prio'] = prio
+        return case
+    return st.builds(build, cases(max_len, horizons), st.sampled_from([0, 0, 1, 2, 3, 5]),
+                     st.lists(st.tuples(st.sampled_from([0, 0.5, 1, 2, 2.5, 4, 7, 10, 13, 19.5]), st.sampled_from([1, 1, 2, 3, 6])),
+                              min_size=1, max_size=4),
+                     st.sampled_from([2, 2, 5, 7, 10, 4.5, 1.5]))
+
+
+def valid(case):
+    return (all(isinstance(q, int) and q > 0 and r >= 0 for r, q in case.get('refills', []))
+            and case.get('refill_prio', 2) > 1 and case['T'] >= 0
+            and (case['src'][0] > 0 or case['src'][1] != 'inf'))
+
+
 def phases(tier):
     ex = Enumerate('documented-examples', lambda c, n: iter(EXAMPLES if c == 0 else []), 1,
                    describe='SingleProcessor (99) and BufferExample (10079)')
     if tier == 'quick':
-        return [ex, Search('lines', lambda: cases(6, [0, 1, 2.5, 7, 13, 20, 31.5]), 1500, shards=4)]
-    return [ex, Search('lines', lambda: cases(10, [0, 2.5, 13, 20, 31.5, 100, 500]), 5000, shards=16)]
+        return [ex, Search('lines', lambda: cases(6, [0, 1, 2.5, 7, 13, 20, 31.5]), 1500, shards=4),
+                Search('refills', lambda: refill_cases(5, [2.5, 7, 13, 20, 31.5]), 500, shards=4)]
+    return [ex, Search('lines', lambda: cases(10, [0, 2.5, 13, 20, 31.5, 100, 500]), 5000, shards=16),
+            Search('refills', lambda: refill_cases(8, [7, 13, 20, 31.5, 100]), 2000, shards=16)]
 
 
 def run_case(case, ctx):
@@ -60,6 +83,8 @@ def run_case(case, ctx):
         classes.append('buffer-delay')
     if ref and len(ref[0]) > len(ref[-1]):
         classes.append('horizon-cuts-part-mid-line')
+    if case.get('refills'):
+        classes.append('budget-raised-during-run')
     classes.append('tb:' + case['tb'][0])
     return {'nontrivial': blocked > 0 and count >= 3, 'classes': classes,
             'counters': {'parts_delivered': count, 'blocked_handovers': blocked}}
